@@ -2589,7 +2589,121 @@ Proof.
   split; [intros k Hk; exact (gap_offsets_onto t n H k Ht Hn Hk)|intros x y Hx Hy; exact (off_inj t H x y Ht Hx Hy)].
 Qed.
 
+(* ------------------------------------------------------------------------------------------ *)
+(* the requester's side of "within the slot time": it looks for new bytes before it tests the     *)
+(* slot timer                                                                                     *)
+
+Lemma await_status_keeps_waiting f now (w : W) a0 l :
+  f_state f = AwaitStatusResponse a0 -> f_gap f = GapDoPoll a0 -> a0 <> ts f ->
+  f_lba f = Some l -> time_ok l -> 0 <= slot_time (f_p f) <= 100000 * 1000000 ->
+  decode (w_rx w) = Ok NeedMore -> now <= l + slot_time (f_p f) ->
+  exists f' w', do_await_status_response A f now w = Ok (f', w') /\ f_state f' = f_state f /\
+                w_tx w' = w_tx w /\ w_rx w' = w_rx w /\ w_apps w' = w_apps w /\ w_calls w' = w_calls w.
+Proof.
+  intros Hs Hg Hne Hl Tl Hslot Hd Hnow.
+  unfold do_await_status_response, assert_entry. rewrite Hs. cbn [kind_of do_fn_entry state_kind_eqb bind get_await_status_response_address].
+  unfold await_gap_poll_response. destruct (Z.eqb_spec a0 (ts f)) as [E|_]; [contradiction|].
+  rewrite Hg, Z.eqb_refl. cbn [negb]. unfold receive_telegram. rewrite Hd. cbn [bind].
+  rewrite Nat.ltb_irrefl.
+  unfold check_slot_expired, lba_get_or_insert, sync_pending_bytes. cbn [set_pending f_lba set_rx w_rx]. rewrite Hl.
+  cbn [f_p set_pending]. unfold inst_add, time_ok in *. rewrite i64_ok_small by lia. cbn [bind].
+  destruct (Z.ltb_spec (l + slot_time (f_p f)) now) as [C|_]; [lia|].
+  eexists; eexists. split; [reflexivity|]. cbn. repeat split; try reflexivity; exact Hs.
+Qed.
+
+(* A station waiting for the status reply (AwaitStatusResponse) does not time out in a poll that finds new bytes in
+   the receive buffer (however late the poll is), nor in a poll up to Tslot after its last_bus_activity: it keeps
+   waiting, transmits nothing and consumes nothing (the reply is not complete yet). *)
+Theorem requester_keeps_waiting f now pin (apps : list A) a0 l :
+  f_conn f = ConnOnline -> f_state f = AwaitStatusResponse a0 -> f_gap f = GapDoPoll a0 -> a0 <> ts f ->
+  tx_busy pin = false -> f_lba f = Some l -> time_ok l -> time_ok now -> l < now ->
+  0 <= slot_time (f_p f) <= 100000 * 1000000 ->
+  decode (rx pin) = Ok NeedMore ->
+  ((f_pending f < length (rx pin))%nat \/ now <= l + slot_time (f_p f)) ->
+  exists f', poll ops f now pin apps = Ok (f', mkPhyOut None (rx pin), apps, []) /\ f_state f' = f_state f.
+Proof.
+  intros Hc Hs Hg Hne Hb Hl Tl Tn Hlt Hslot Hd Hcase.
+  unfold poll, poll_traced. rewrite Hb.
+  rewrite (poll_inner_dispatches f now _ Hc ltac:(rewrite Hs; reflexivity) ltac:(intros l0 E; rewrite Hl in E; injection E as <-; exact Hlt)).
+  unfold check_for_bus_activity. cbn [w_rx].
+  destruct (Nat.ltb_spec (f_pending f) (length (rx pin))) as [Hnew|Hold]; cbn [fst snd].
+  - set (f3 := set_pending (mark_bus_activity f now) (length (rx pin))).
+    assert (Hl3 : f_lba f3 = Some now).
+    { unfold f3, mark_bus_activity, lba_get_or_insert. rewrite Hl. cbn. f_equal. lia. }
+    destruct (await_status_keeps_waiting f3 now (note A (mkWorld (rx pin) None apps [] []) TBusActivity) a0 now)
+      as [f' [w' [Hd' [Hs' [Ht [Hr [Ha Hca]]]]]]]; try assumption.
+    + unfold f3, mark_bus_activity, lba_get_or_insert. rewrite Hl. cbn. exact Hs.
+    + unfold f3, mark_bus_activity, lba_get_or_insert. rewrite Hl. cbn. exact Hg.
+    + unfold f3, mark_bus_activity, lba_get_or_insert, ts. rewrite Hl. cbn. exact Hne.
+    + unfold f3, mark_bus_activity, lba_get_or_insert. rewrite Hl. cbn. exact Hslot.
+    + unfold f3, mark_bus_activity, lba_get_or_insert. rewrite Hl. cbn. lia.
+    + unfold dispatch. replace (f_state f3) with (f_state f)
+        by (unfold f3, mark_bus_activity, lba_get_or_insert; rewrite Hl; reflexivity).
+      rewrite Hs. cbn [kind_of poll_dispatch]. rewrite Hd'. cbn [bind].
+      exists f'. cbn in Ht, Hr, Ha, Hca. rewrite Ht, Hr, Ha, Hca. split; [reflexivity|].
+      rewrite Hs'. unfold f3, mark_bus_activity, lba_get_or_insert. rewrite Hl. cbn. exact Hs.
+  - destruct Hcase as [Hnew|Hin]; [lia|].
+    destruct (await_status_keeps_waiting f now (mkWorld (rx pin) None apps [] []) a0 l)
+      as [f' [w' [Hd' [Hs' [Ht [Hr [Ha Hca]]]]]]]; try assumption.
+    unfold dispatch. rewrite Hs. cbn [kind_of poll_dispatch]. rewrite Hd'. cbn [bind].
+    exists f'. cbn in Ht, Hr, Ha, Hca. rewrite Ht, Hr, Ha, Hca. split; [reflexivity|rewrite Hs'; exact Hs].
+Qed.
+
 End WithApps.
+
+(* ------------------------------------------------------------------------------------------ *)
+(* non-vacuity: concrete polls that exercise the theorems                                       *)
+
+Definition ex_params : params := mkParams 7 B19200 100 20000 10 16 3 11 None.
+Definition ex_ring (st : las_state) (ns ps : Z) : ring := mkRing (set_nth (repeat false 128) 7 true) st 7 ns ps.
+Definition ex_station (s : state) (g : gap_state) (ps : Z) : fdl :=
+  mkFdl ex_params (ex_ring LasValid 7 ps) ConnOnline g s (Some 0) 0 0 0 0.
+
+(* station 7 alone in the ring (NS = TS, HSA = 16), cursor at TS: the GAP step polls address 8 *)
+Lemma example_gap_request :
+  exists f' o, poll unit_app_ops (ex_station (PassToken true AttFirst) (GapDoPoll 7) 7) 10000 (mkPhyIn false []) [tt]
+               = Ok (f', o, [tt], []) /\
+    tx o = Some (sr_wire 8 7) /\ f_state f' = AwaitStatusResponse 8 /\ f_gap f' = GapDoPoll 8.
+Proof. eexists; eexists. split; [vm_compute; reflexivity|]. repeat split; reflexivity. Qed.
+
+(* cursor at HSA-1 = 15: wraps to 0, which is in the GAP of (7, 7) *)
+Lemma example_gap_request_wrap :
+  exists f' o, poll unit_app_ops (ex_station (PassToken true AttFirst) (GapDoPoll 15) 7) 10000 (mkPhyIn false []) [tt]
+               = Ok (f', o, [tt], []) /\
+    tx o = Some (sr_wire 0 7) /\ f_state f' = AwaitStatusResponse 0.
+Proof. eexists; eexists. split; [vm_compute; reflexivity|]. repeat split; reflexivity. Qed.
+
+(* cursor at TS-1 = 6: the sweep ends, the token goes to NS (= TS here) *)
+Lemma example_sweep_end :
+  exists f' o, poll unit_app_ops (ex_station (PassToken true AttFirst) (GapDoPoll 6) 7) 10000 (mkPhyIn false []) [tt]
+               = Ok (f', o, [tt], []) /\
+    tx o = Some (encode_token 7 7) /\ f_gap f' = GapWaiting 0.
+Proof. eexists; eexists. split; [vm_compute; reflexivity|]. repeat split; reflexivity. Qed.
+
+(* a listening station with a valid LAS answers its predecessor (3) "ready" and enters the ring *)
+Lemma example_status_reply :
+  exists f' o, poll unit_app_ops (ex_station (ListenToken (Some 3) 0) (GapDoPoll 7) 3) 10000 (mkPhyIn false []) [tt]
+               = Ok (f', o, [tt], []) /\
+    tx o = Some (reply_wire 3 7 RsMasterWithoutToken) /\ f_state f' = ActiveIdle None None 0.
+Proof. eexists; eexists. split; [vm_compute; reflexivity|]. repeat split; reflexivity. Qed.
+
+(* ... and anybody else "not ready" *)
+Lemma example_status_reply_not_ready :
+  exists f' o, poll unit_app_ops (ex_station (ListenToken (Some 4) 0) (GapDoPoll 7) 3) 10000 (mkPhyIn false []) [tt]
+               = Ok (f', o, [tt], []) /\
+    tx o = Some (reply_wire 4 7 RsMasterNotReady).
+Proof. eexists; eexists. split; [vm_compute; reflexivity|]. repeat split; reflexivity. Qed.
+
+(* a ready master at 9 answers the poll of 9: it becomes NS *)
+Lemma example_found :
+  exists f' o, poll unit_app_ops (ex_station (AwaitStatusResponse 9) (GapDoPoll 9) 7) 10000
+                 (mkPhyIn false (encode (TData (status_response_header 7 9 RsMasterWithoutToken StOk) []))) [tt]
+               = Ok (f', o, [tt], []) /\
+    tx o = None /\ r_ns (f_ring f') = 9 /\ f_state f' = PassToken false AttFirst.
+Proof. eexists; eexists. split; [vm_compute; reflexivity|]. repeat split; reflexivity. Qed.
+
+Lemma example_params_builder_valid : builder_valid ex_params.
+Proof. unfold builder_valid. vm_compute. repeat split; discriminate. Qed.
 
 Arguments gap_counters {A}.
 Arguments facts {A}.
